@@ -74,6 +74,12 @@ var kinds = []kind{
 	{name: "[0]int", truthy: true, mk: func() interface{} { return [0]int{} }},
 	{name: "[2]int", truthy: true, mk: func() interface{} { return [2]int{} }},
 	{name: "empty map", truthy: true, mk: func() interface{} { return map[string]interface{}{} }},
+	// the zero values of collection and function types: not nil pointers, not "nil" - empty collections / other values
+	{name: "nil []string", truthy: true, mk: func() interface{} { return []string(nil) }},
+	{name: "nil []interface{}", truthy: true, mk: func() interface{} { return []interface{}(nil) }},
+	{name: "nil map", truthy: true, mk: func() interface{} { return map[string]interface{}(nil) }},
+	{name: "nil func", truthy: true, mk: func() interface{} { return (func() string)(nil) }},
+	{name: "struct field holding a nil slice", truthy: true, helper: func() interface{} { return struct{ Tags []string }{}.Tags }},
 	{name: "map", truthy: true, mk: func() interface{} { return map[string]int{"a": 0} }},
 	{name: "empty struct", truthy: true, mk: func() interface{} { return struct{}{} }},
 	{name: "zero struct", truthy: true, mk: func() interface{} { return pt{} }},
@@ -452,11 +458,11 @@ func checkNestSrc(r *vk.Run, prog []model.Node, src string, c NestCase) *vk.Fail
 	return nil
 }
 
-const rule = "(A, exhaustive) 53 value kinds (nil, bools, strings incl. \"false\"/\"0\", trusted HTML, typed nil pointers, non-nil pointers to zero values, unknown identifier, nil context value, every numeric width at 0, empty and non-empty slices/arrays/maps/structs, func, iterator, time, helper results) x 23 test positions (if, else-if, second else-if, !, !!, &&/|| on either side, emitted ! && ||, inside for / function / block helper, silent if, && in a silent tag, and five sequences in which a name is first tested while unknown, then bound by a loop variable / parameter / helper-context data and tested again), via a variable and via the literal spelling where one exists: the truth value must be the same everywhere and equal the table in the property. plus 13 conditions that are arithmetic / concatenation expressions (value tested, e.g. 0 + 0 is truthy, \"\" + \"\" falsy) x 6 positions. (A2, exhaustive + random) one set of six test sites (if, else-if, !, && , ||, emitted !) evaluated for several values in turn within one render - loop body over a slice of the values, or a template function called once per value: every ordered pair (A, B) of the 44 passable value kinds tested A, B, A, and random sequences of 2-8 kinds. (B, exhaustive) every chain of 1..4 branches x every assignment of 9 condition values x with/without else x 5 placements, each condition wrapped in a recording helper: output = block of the first truthy branch, conditions evaluated = exactly the prefix up to it. (C, random) nested if/else-if/else chains with !, && and || conditions inside loops, compared with the reference interpreter incl. the evaluation trace. Non-trivial: every matrix cell and chain is (distinct by cell / chain / template)."
+const rule = "(A, exhaustive) 58 value kinds (nil, bools, nil slices / maps / funcs (truthy: not nil pointers), strings incl. \"false\"/\"0\", trusted HTML, typed nil pointers, non-nil pointers to zero values, unknown identifier, nil context value, every numeric width at 0, empty and non-empty slices/arrays/maps/structs, func, iterator, time, helper results) x 23 test positions (if, else-if, second else-if, !, !!, &&/|| on either side, emitted ! && ||, inside for / function / block helper, silent if, && in a silent tag, and five sequences in which a name is first tested while unknown, then bound by a loop variable / parameter / helper-context data and tested again), via a variable and via the literal spelling where one exists: the truth value must be the same everywhere and equal the table in the property. plus 13 conditions that are arithmetic / concatenation expressions (value tested, e.g. 0 + 0 is truthy, \"\" + \"\" falsy) x 6 positions. (A2, exhaustive + random) one set of six test sites (if, else-if, !, && , ||, emitted !) evaluated for several values in turn within one render - loop body over a slice of the values, or a template function called once per value: every ordered pair (A, B) of the 44 passable value kinds tested A, B, A, and random sequences of 2-8 kinds. (B, exhaustive) every chain of 1..4 branches x every assignment of 9 condition values x with/without else x 5 placements, each condition wrapped in a recording helper: output = block of the first truthy branch, conditions evaluated = exactly the prefix up to it. (C, random) nested if/else-if/else chains with !, && and || conditions inside loops, compared with the reference interpreter incl. the evaluation trace. Non-trivial: every matrix cell and chain is (distinct by cell / chain / template)."
 
 func setup(t *testing.T) *vk.Run {
 	r := vk.Start(t, "C07", rule,
-		"typed-nil slices, maps and funcs are not in the table (the statement speaks of nil and nil pointers only)",
+		"the zero values of slice, map and func types are in the table as truthy: the statement lists what is falsy (nil, false, the empty string, empty HTML, nil pointers, unknown identifiers) and calls every other value, empty collections included, truthy",
 		"conditions must be spelled as identifiers, literals, calls, index, prefix or infix expressions: other forms are rejected by the parser before evaluation")
 	r.Replayer("truth", func(raw json.RawMessage) *vk.Fail {
 		var c TruthCase
